@@ -39,6 +39,11 @@ var (
 	shared         = map[*types.TypeName]bool{}
 	sharedNames    = map[string]bool{}
 	writtenVars    = map[*types.Var]bool{}
+	// package-level struct variables that are written through a field, or whose address is taken, outside init:
+	// their types join the shared types (field-granular hooks wherever values of the type are touched)
+	objVars     = map[*types.Var]bool{}
+	sharedAnon  = map[*types.Struct]bool{}
+	lateShared  = map[string]bool{} // qualified names of types that are shared only because of objVars
 	unsupported    []string
 	unhooked       []string
 	allowedChanOps = map[ast.Node]bool{}
@@ -169,6 +174,16 @@ func rtCall(fn string, args ...ast.Expr) ast.Stmt {
 
 func strLit(s string) ast.Expr { return &ast.BasicLit{Kind: token.STRING, Value: strconv.Quote(s)} }
 func intLit(i int) ast.Expr    { return &ast.BasicLit{Kind: token.INT, Value: strconv.Itoa(i)} }
+
+func stripParens(e ast.Expr) ast.Expr {
+	for {
+		p, ok := e.(*ast.ParenExpr)
+		if !ok {
+			return e
+		}
+		e = p.X
+	}
+}
 
 func pure(e ast.Expr) bool {
 	switch x := e.(type) {
@@ -329,12 +344,23 @@ func (r *rewriter) hooksIn(e ast.Node) []ast.Stmt {
 				out = append(out, r.localMapStmt(x.X, x.Pos()))
 			}
 		case *ast.UnaryExpr:
+			if x.Op == token.AND {
+				if id, ok := stripParens(x.X).(*ast.Ident); ok {
+					if v, ok := info.Uses[id].(*types.Var); ok && objVars[v] {
+						objDone[id] = true // taking the address touches nothing
+					}
+				}
+			}
 			if x.Op == token.AND && !skip[x] {
 				if sel, ok := x.X.(*ast.SelectorExpr); ok {
 					if s := info.Selections[sel]; s != nil && s.Kind() == types.FieldVal && r.sharedField(s) && !isMutex(s.Type()) {
 						// fine when the field is itself a shared struct (its own field accesses are hooked
 						// wherever they happen); anything else could be written through the pointer unseen
-						if n := namedOf(s.Type()); n == nil || n.Obj().Pkg() == nil || !sharedNames[n.Obj().Pkg().Path()+"."+n.Obj().Name()] {
+						if n := namedOf(s.Type()); (n == nil || n.Obj().Pkg() == nil || !sharedNames[n.Obj().Pkg().Path()+"."+n.Obj().Name()]) && quietField(s) {
+							// a type that is shared only because some package variable of it is written: not fatal
+							unhooked = append(unhooked, "&x."+sel.Sel.Name+" at "+posStr(x.Pos()))
+							skip[sel] = true
+						} else if n == nil || n.Obj().Pkg() == nil || !sharedNames[n.Obj().Pkg().Path()+"."+n.Obj().Name()] {
 							r.unsupported(x.Pos(), "address of a shared non-struct field escapes (&x."+sel.Sel.Name+")")
 						} else {
 							skip[sel] = true
@@ -355,11 +381,20 @@ func (r *rewriter) hooksIn(e ast.Node) []ast.Stmt {
 							kind = 1
 						}
 						stats["accstruct"]++
-						out = append(out, rtCall("AccStruct", x.X, intLit(kind), strLit(posStr(x.Pos()))))
+						fn := "AccStruct"
+						if lateShared[n.Obj().Pkg().Path()+"."+n.Obj().Name()] {
+							fn = "AccStructQ"
+						}
+						out = append(out, rtCall(fn, x.X, intLit(kind), strLit(posStr(x.Pos()))))
 					}
 				}
 			}
 		case *ast.SelectorExpr:
+			if id, ok := stripParens(x.X).(*ast.Ident); ok {
+				if v, ok := info.Uses[id].(*types.Var); ok && objVars[v] {
+					objDone[id] = true // root of a selection: the selected field is the access, not the variable as a whole
+				}
+			}
 			if st, ok := x.X.(*ast.StarExpr); ok {
 				skip[st] = true
 			}
@@ -392,6 +427,18 @@ func (r *rewriter) hooksIn(e ast.Node) []ast.Stmt {
 				// handing the object on (return, argument, assignment) counts as reading it: whoever receives it
 				// will look inside without any further synchronisation
 				out = append(out, r.objStmt(x, fv, 0))
+			}
+			if objVars[v] && !objDone[x] {
+				if _, isStruct := v.Type().Underlying().(*types.Struct); isStruct {
+					r.usedRT = true
+					kind := 0
+					if r.writes[x] {
+						kind = 1
+					}
+					stats["accstruct_var"]++
+					out = append(out, rtCall("AccStructQ", &ast.UnaryExpr{Op: token.AND, X: ast.NewIdent(x.Name)}, intLit(kind), strLit(posStr(x.Pos()))))
+					return true
+				}
 			}
 			if !writtenVars[v] {
 				return true
@@ -463,7 +510,26 @@ func (r *rewriter) objStmt(id *ast.Ident, v *types.Var, kind int) ast.Stmt {
 
 func (r *rewriter) sharedField(s *types.Selection) bool {
 	n := namedOf(s.Recv())
-	return n != nil && n.Obj().Pkg() != nil && sharedNames[n.Obj().Pkg().Path()+"."+n.Obj().Name()]
+	if n == nil {
+		t := s.Recv()
+		if p, ok := t.(*types.Pointer); ok {
+			t = p.Elem()
+		}
+		st, ok := t.(*types.Struct)
+		return ok && sharedAnon[st]
+	}
+	return n.Obj().Pkg() != nil && sharedNames[n.Obj().Pkg().Path()+"."+n.Obj().Name()]
+}
+
+// quietField: the receiver type is shared only because a package-level variable of it is written or has its
+// address taken. Such types (ParsedOpcode, say) are touched all over the interpreter: their hooks record the access
+// for the race detector but are scheduling points only at the function-entry granularity of the run.
+func quietField(s *types.Selection) bool {
+	n := namedOf(s.Recv())
+	if n == nil {
+		return true
+	}
+	return n.Obj().Pkg() != nil && lateShared[n.Obj().Pkg().Path()+"."+n.Obj().Name()]
 }
 
 func (r *rewriter) accStmts(x ast.Expr, t types.Type, pos token.Pos) []ast.Stmt {
@@ -474,7 +540,14 @@ func (r *rewriter) accStmts(x ast.Expr, t types.Type, pos token.Pos) []ast.Stmt 
 		kind = 1
 	}
 	stats["acc"]++
-	out := []ast.Stmt{rtCall("Acc", &ast.UnaryExpr{Op: token.AND, X: x}, intLit(kind), strLit(site))}
+	fn := "Acc"
+	if sel, ok := x.(*ast.SelectorExpr); ok {
+		if s := r.p.info.Selections[sel]; s != nil && quietField(s) {
+			fn = "AccQ"
+			stats["acc_quiet"]++
+		}
+	}
+	out := []ast.Stmt{rtCall(fn, &ast.UnaryExpr{Op: token.AND, X: x}, intLit(kind), strLit(site))}
 	if _, isMap := t.Underlying().(*types.Map); isMap && kind == 0 {
 		mk := 2
 		if r.mapW[x] {
@@ -761,11 +834,11 @@ func (r *rewriter) rewriteFile() {
 		if !ok || fd.Body == nil {
 			continue
 		}
-		fd.Body.List = r.block(fd.Body.List)
 		trivial := false
 		if len(fd.Body.List) == 1 {
-			_, trivial = fd.Body.List[0].(*ast.ReturnStmt) // plain getters are not worth a scheduling point
+			_, trivial = fd.Body.List[0].(*ast.ReturnStmt) // plain getters are not worth a scheduling point (judged before hooks are added)
 		}
+		fd.Body.List = r.block(fd.Body.List)
 		if r.yieldFns && !trivial && len(fd.Body.List) > 0 {
 			r.usedRT = true
 			stats["yield"]++
@@ -825,6 +898,88 @@ func fixImports(f *ast.File, needRT bool, src []byte) {
 	if needRT {
 		f.Decls = append([]ast.Decl{&ast.GenDecl{Tok: token.IMPORT, Specs: []ast.Spec{&ast.ImportSpec{Path: &ast.BasicLit{Kind: token.STRING, Value: strconv.Quote("verif/simrt")}}}}}, f.Decls...)
 	}
+}
+
+// findObjVars marks package-level struct variables (module or anonymous struct types) that are written through a field
+// selection ("G.f = v", "G.f.g++") or whose address is taken ("p := &G", "&G.f") outside init, and returns them.
+func findObjVars(p *pkgInfo) []*types.Var {
+	var found []*types.Var
+	rootVar := func(e ast.Expr, needSel bool) *types.Var {
+		sel := false
+		for {
+			switch x := e.(type) {
+			case *ast.ParenExpr:
+				e = x.X
+				continue
+			case *ast.SelectorExpr:
+				if s := p.info.Selections[x]; s == nil || s.Kind() != types.FieldVal {
+					return nil
+				}
+				sel = true
+				e = x.X
+				continue
+			case *ast.StarExpr:
+				e = x.X
+				continue
+			}
+			break
+		}
+		id, ok := e.(*ast.Ident)
+		if !ok || (needSel && !sel) {
+			return nil
+		}
+		v, ok := p.info.Uses[id].(*types.Var)
+		if !ok || v.Parent() != p.pkg.Scope() {
+			return nil
+		}
+		t := v.Type()
+		if sel {
+			if pt, ok := t.(*types.Pointer); ok {
+				t = pt.Elem()
+			}
+		}
+		if n, ok := t.(*types.Named); ok {
+			if !inModule(n) {
+				return nil
+			}
+		}
+		if _, isStruct := t.Underlying().(*types.Struct); !isStruct {
+			return nil
+		}
+		return v
+	}
+	add := func(v *types.Var) {
+		if v != nil && !objVars[v] {
+			objVars[v] = true
+			found = append(found, v)
+		}
+	}
+	for _, f := range p.files {
+		for _, d := range f.Decls {
+			fd, ok := d.(*ast.FuncDecl)
+			if !ok || fd.Body == nil || (fd.Name.Name == "init" && fd.Recv == nil) {
+				continue
+			}
+			ast.Inspect(fd.Body, func(n ast.Node) bool {
+				switch s := n.(type) {
+				case *ast.UnaryExpr:
+					if s.Op == token.AND {
+						add(rootVar(s.X, false))
+					}
+				case *ast.AssignStmt:
+					if s.Tok != token.DEFINE {
+						for _, l := range s.Lhs {
+							add(rootVar(l, true))
+						}
+					}
+				case *ast.IncDecStmt:
+					add(rootVar(s.X, true))
+				}
+				return true
+			})
+		}
+	}
+	return found
 }
 
 // findWrittenVars marks package-level variables assigned outside init/declaration.
@@ -903,6 +1058,31 @@ func main() {
 		}
 		closeShared(obj.Type(), seen)
 	}
+	// package-level struct variables written through a field or through a pointer taken to them
+	before := map[*types.TypeName]bool{}
+	for tn := range shared {
+		before[tn] = true
+	}
+	var ov []string
+	for _, p := range []*pkgInfo{bt, in} {
+		for _, v := range findObjVars(p) {
+			ov = append(ov, v.Pkg().Name()+"."+v.Name())
+			t := v.Type()
+			if pt, ok := t.(*types.Pointer); ok {
+				t = pt.Elem()
+			}
+			if st, ok := t.(*types.Struct); ok {
+				sharedAnon[st] = true
+			}
+			closeShared(t, seen)
+		}
+	}
+	for tn := range shared {
+		if !before[tn] {
+			lateShared[tn.Pkg().Path()+"."+tn.Name()] = true
+		}
+	}
+	sort.Strings(ov)
 	// the closure was computed on each package's own type universe; re-map by qualified name so that
 	// bt types seen from the interpreter package (a separate type-check) are matched too
 	names := sharedNames
@@ -970,7 +1150,7 @@ func main() {
 		sort.Strings(unhooked)
 		fmt.Printf("instrument: %d shared-field accesses through call expressions left unhooked, e.g. %s\n", len(unhooked), unhooked[0])
 	}
-	fmt.Printf("instrumented: shared types %v; package variables written after init %v; hooks: %v\n", sn, wv, stats)
+	fmt.Printf("instrumented: shared types %v; package variables written after init %v; struct variables written or address-taken after init %v; hooks: %v\n", sn, wv, ov, stats)
 }
 
 func dedup(s []string) []string {
